@@ -57,7 +57,7 @@ def c08_cases():
         'done_before': st.integers(0, 3),
         'action': st.sampled_from(['terminate', 'terminate', 'terminate2',
                                    'del_pool', 'terminate_job', 'sigterm',
-                                   'hardlimit']),
+                                   'hardlimit', 'tjob_terminate']),
         # several idle workers are told to exit shortly before the call, so that
         # the supervisor is busy replacing them (with a slow on_process_up
         # callback) when terminate() arrives
@@ -93,7 +93,12 @@ def execute_c08(case):
         # scanner (TERM, then KILL 0.1 s later if the worker is still there)
         o = {'hard': 1} if case['action'] == 'hardlimit' and i == 0 \
             and threads else {}
-        if kind == 'sleep':
+        if case['action'] == 'tjob_terminate' and i == 0 and threads:
+            # a task that outlives every bound and swallows the first
+            # termination request (terminate_job); terminate() comes while it
+            # is still busy
+            steps.append(['apply', 'r0', [['mark', 'r0'], ['stubborn', 100]], {}])
+        elif kind == 'sleep':
             steps.append(['apply', 'r%d' % i, [['mark', 'r%d' % i], ['sleep', 40]],
                           o])
         else:
@@ -109,10 +114,17 @@ def execute_c08(case):
         steps.append(['imap_lazy', 'lz', [['retx', 1]], 2, 6.0, 2,
                       'imap' if case['procs'] % 2 else 'imap_unordered'])
     action = case['action']
-    if action in ('terminate_job', 'sigterm', 'hardlimit') and not running:
+    if action in ('terminate_job', 'sigterm', 'hardlimit',
+                  'tjob_terminate') and not running:
         action = 'terminate'
     if action == 'hardlimit' and not threads:
         action = 'terminate'    # nobody runs the time-limit scanner there
+    if action == 'tjob_terminate' and not threads:
+        # workers of a pool without helper threads keep their termination
+        # handler installed, so a task that swallows every BaseException is
+        # never ended by SIGTERM and terminate() lasts as long as the task
+        # does - a task outside "whatever the workers are doing"; see DESIGN
+        action = 'terminate_job'
     # let freshly started workers reach their idle state (blocked in the read of
     # the task queue, holding its read lock)
     steps.append(['sleep', 0.6])
@@ -144,6 +156,8 @@ def execute_c08(case):
     elif action == 'hardlimit':
         steps += [['wait', 'r0', 30], ['sleep', 3.0], ['snapshot', 'after'],
                   ['terminate']]
+    elif action == 'tjob_terminate':
+        steps += [['terminate_job', 'r0'], ['sleep', 0.5], ['terminate']]
     scen = {'pool': {'procs': procs, 'threads': threads, 'lost': 0.5,
                      'slow_up': 0.5 if mass else 0,
                      'slow_start': 1.0 if midfork else 0},
